@@ -1,6 +1,7 @@
 import RNacos.Driver.Codec
 import RNacos.Driver.Distro
 import RNacos.Driver.Sequence
+import RNacos.Driver.AuthDrv
 open RNacos.Driver
 
 /-- Generic loop: `# …` lines are echoed and reset the state. -/
@@ -27,4 +28,10 @@ def main (args : List String) : IO UInt32 := do
   | ["distro", "--spec"] => loop stdin stdout ({} : Distro.SpecSt) Distro.specStep {}; return 0
   | ["sequence"] => loop stdin stdout ({} : Sequence.St) Sequence.step {}; return 0
   | ["sequence", "--spec"] => loop stdin stdout ({} : Sequence.SpecSt) Sequence.specStep {}; return 0
+  | ["openapi"] => loop stdin stdout () AuthDrv.step (); return 0
+  | ["openapi", "--spec"] => loop stdin stdout ({} : AuthDrv.SpecSt) (AuthDrv.specStep AuthDrv.specOpenapi) {}; return 0
+  | ["console"] => loop stdin stdout () AuthDrv.step (); return 0
+  | ["console", "--spec"] => loop stdin stdout ({} : AuthDrv.SpecSt) (AuthDrv.specStep AuthDrv.specConsole) {}; return 0
+  | ["perm"] => loop stdin stdout () AuthDrv.step (); return 0
+  | ["perm", "--spec"] => loop stdin stdout () (fun _ _ => ((), "-")) (); return 0
   | _ => IO.eprintln "usage: driver <model> [--spec]"; return 2
